@@ -508,7 +508,12 @@ pub struct LeaderState<T: TypeConfig> {
 
     // -- Metrics (optional, encapsulated) --
     /// Backpressure metrics context (None when metrics disabled)
-    backpressure_metrics: Option<Arc<BackpressureMetrics>>,
+/// Set once this leader has adopted a higher term and queued its own step-down.
+    /// Until `BecomeFollower` is processed it must not send AppendEntries any more: the
+    /// adopted term belongs to somebody else.
+    stepping_down: bool,
+
+        backpressure_metrics: Option<Arc<BackpressureMetrics>>,
 
     // -- Type System Marker --
     /// Phantom data for type parameter anchoring
@@ -739,6 +744,13 @@ impl<T: TypeConfig> RaftRoleState for LeaderState<T> {
         _raft_tx: &mpsc::Sender<InboundEvent>,
         ctx: &RaftContext<T>,
     ) -> Result<()> {
+        if self.stepping_down {
+            // A higher term was adopted and BecomeFollower is queued: do not act as leader.
+            // Re-arm the timer so that the queued step-down is not starved by the tick arm.
+            self.timer.reset_replication();
+            return Ok(());
+        }
+
         let now = Instant::now();
         // Keep syncing leader_id (hot-path: ~5ns atomic store)
         self.shared_state().set_current_leader(self.node_id());
@@ -1127,6 +1139,7 @@ impl<T: TypeConfig> RaftRoleState for LeaderState<T> {
                 let my_term = self.current_term();
                 if my_term < vote_request.term {
                     self.update_current_term(vote_request.term);
+                    self.stepping_down = true;
                     // Revoke lease immediately — before the Raft loop processes BecomeFollower,
                     // a concurrent ReadActor could still see the old valid lease (window-period bug).
                     self.shared_state.lease.revoke();
@@ -1598,6 +1611,7 @@ impl<T: TypeConfig> RaftRoleState for LeaderState<T> {
                 response.term, follower_id
             );
             self.update_current_term(response.term);
+            self.stepping_down = true;
             self.drain_pending_writes_with_error(ErrorCode::TermOutdated);
             // Revoke lease immediately — window-period fix (see VoteRequest branch).
             self.shared_state.lease.revoke();
@@ -1627,6 +1641,7 @@ impl<T: TypeConfig> RaftRoleState for LeaderState<T> {
             Some(append_entries_response::Result::HigherTerm(term)) => {
                 if term > leader_term {
                     self.update_current_term(term);
+                    self.stepping_down = true;
                     self.drain_pending_writes_with_error(ErrorCode::TermOutdated);
                     // Revoke lease immediately — window-period fix (see VoteRequest branch).
                     self.shared_state.lease.revoke();
@@ -3346,6 +3361,7 @@ impl<T: TypeConfig> LeaderState<T> {
             pending_client_writes: BTreeMap::new(),
             pending_commit_actions: BTreeMap::new(),
             write_propose_times: HashMap::new(),
+            stepping_down: false,
             backpressure_metrics,
             _marker: PhantomData,
         }
@@ -4166,6 +4182,7 @@ impl<T: TypeConfig> From<&CandidateState<T>> for LeaderState<T> {
             pending_client_writes: BTreeMap::new(),
             pending_commit_actions: BTreeMap::new(),
             write_propose_times: HashMap::new(),
+            stepping_down: false,
             backpressure_metrics,
             _marker: PhantomData,
         }
